@@ -434,8 +434,10 @@ func c17CoverSpace(c *fw.Ctx) {
 		names []string // lower case
 	}
 	zones := []zn{
-		{"example.", []string{"a.example.", "x.y.example.", "*.example.", "example.", "a.example.org.", "com.", "a.xexample.", "a.example2.", "."}},
-		{"sub.example.", []string{"a.sub.example.", "sub.example.", "example.", "a.example.", "xsub.example.", "a.sub.example2."}},
+		{"example.", []string{"a.example.", "x.y.example.", "*.example.", "example.", "a.example.org.", "com.", "a.xexample.", "a.example2.", ".",
+			"a\\.example.", "x.a\\.example.", "a\\.b.example.", "a\\\\.example.", "a\\046example."}},
+		{"sub.example.", []string{"a.sub.example.", "sub.example.", "example.", "a.example.", "xsub.example.", "a.sub.example2.",
+			"a\\.sub.example.", "a.x\\.sub.example.", "a\\\\.sub.example."}},
 		{".", []string{"com.", "a.example.", "."}},
 	}
 	type si struct {
@@ -447,7 +449,7 @@ func c17CoverSpace(c *fw.Ctx) {
 		params = append(params, si{1, 2}, si{0, 100}, si{16, 0}, si{8, 2500})
 	}
 	offs := c17Offsets()
-	c.Space("cover", "NSEC3 records built by construction: owner hash = H(name)+a, next hash = H(name)+b (mod 2^160) for a, b ∈ {−3·2^151, −2^150, −2, −1, 0, +1, +2, +2^150, +3·2^151} (all 81 pairs: normal, wrapping, empty, adjacent intervals × hash below / = owner / owner+1 / inside / next−1 / = next / above) × zones {example., sub.example., .} × names {in zone, wildcard, apex, parent, other TLD, string-suffix sibling, root} × (salt, iterations) × name spelling {lower, upper} × owner label {upper, lower} × NextDomain {upper, lower}; expected Match/Cover from 160-bit integer comparison and label-wise zone membership; non-trivial: name inside the record's zone", true,
+	c.Space("cover", "NSEC3 records built by construction: owner hash = H(name)+a, next hash = H(name)+b (mod 2^160) for a, b ∈ {−3·2^151, −2^150, −2, −1, 0, +1, +2, +2^150, +3·2^151} (all 81 pairs: normal, wrapping, empty, adjacent intervals × hash below / = owner / owner+1 / inside / next−1 / = next / above) × zones {example., sub.example., .} × names {in zone, wildcard, apex, parent, other TLD, string-suffix sibling, root, a label ending in an escaped dot right before the zone's labels (outside the zone), the same with an escaped backslash (inside)} × (salt, iterations) × name spelling {lower, upper} × owner label {upper, lower} × NextDomain {upper, lower}; expected Match/Cover from 160-bit integer comparison and label-wise zone membership; non-trivial: name inside the record's zone", true,
 		func(emit func(func(*fw.R))) {
 			for _, z := range zones {
 				for _, lower := range z.names {
